@@ -826,6 +826,32 @@ func modeTotal(seed uint64, n int, out *sx.Out) {
 		}
 		out.Case(fmt.Sprintf("TBuild %d %s %s", nf, oc, bs), map[string]interface{}{"case": i, "filters": nf, "syscalls": sr.Syscalls, "outcome": oc, "detail": detail}, "build/"+oc, oc != "OPanic")
 	}
+	// every field with every hostile right-hand side, one filter per rule, built directly (flags.Parse would refuse some of these
+	// before Build sees them): each value parser on its own
+	allFields := append(append(append(append([]string{"arch", "perm", "filetype", "exit", "msgtype", "sessionid", "key", "field_compare", "nosuchfield", ""}, numFields...), uidFields...), gidFields...), strFields...)
+	hostileRHS := []string{"", " ", "-", "+", "0x", "-0x", "0b", "0o", "_", "1_", "-1", "4294967296", "-4294967297", "99999999999999999999", "EPERM", "-EPERM", "-E", "e", "\x00", "a b",
+		strings.Repeat("9", 400), "b64", "r", "rwxaq", "file", "SYSCALL", "UNKNOWN[1]", "unset", "root", "-", "--1", "0x7fffffffffffffff"}
+	sweep := 0
+	for _, list := range []string{"exit", "exclude", "user", "task"} {
+		for _, f := range allFields {
+			for _, rhs := range hostileRHS {
+				sweep++
+				op := []string{"=", "!=", "&", "<="}[sweep%4]
+				sr := &rule.SyscallRule{Type: rule.AppendSyscallRuleType, List: list, Action: "always", Syscalls: []string{"1"},
+					Filters: []rule.FilterSpec{{Type: rule.ValueFilterType, LHS: f, Comparator: op, RHS: rhs}}}
+				var built []byte
+				oc, detail := guarded(func() (string, error) { b, err := rule.Build(sr); built = b; return "", err })
+				bs := "None"
+				if oc == "OOk" {
+					bs = "(Some " + sx.Hx(built) + ")"
+				}
+				if oc == "OOk" && sweep%7 != 0 {
+					continue // accepted rules are covered by the build mode; keep a sample
+				}
+				out.Case(fmt.Sprintf("TBuild %d %s %s", 1, oc, bs), map[string]interface{}{"list": list, "field": f, "op": op, "rhs": rhs, "outcome": oc, "detail": detail}, "value-sweep/"+oc, oc != "OPanic")
+			}
+		}
+	}
 	// arbitrary lines
 	frags := []string{"-a", "-A", "-F", "-C", "-S", "-k", "-w", "-p", "-D", "--", "-", "exit,always", "always,exit", "uid=0", "a0&=0xffffffffff", "'", "\"", "\\", " ", "=", "-x", "-S=1", "-k=", "--a=exit,never", "auid!=4294967295", "x", "\t", "-F=", "arch=b64", "-S 5000", "path=/a b", "''", "\"\""}
 	for i := 0; i < n/3; i++ {
